@@ -197,6 +197,8 @@ type docGen struct {
 	budget   int
 	maxDepth int
 	nAlias   int
+	// constOnly: never use variables (fragments of documents made by mutations)
+	constOnly bool
 }
 
 func (g *docGen) intLit() string {
@@ -248,7 +250,7 @@ func (g *docGen) value(t *TypeRef, locDefault, constant, inList bool, depth int)
 }
 
 func (g *docGen) value1(t *TypeRef, locDefault, constant, inList bool, depth int) *GValue {
-	if !constant && g.r.Chance(1, 4) {
+	if !constant && !g.constOnly && g.r.Chance(1, 4) {
 		return g.useVar(t, locDefault)
 	}
 	if !t.IsNonNull() && g.r.Chance(1, 10) {
